@@ -17,7 +17,7 @@ into), on every face. Oracle: area on the sphere of the image region (each edge 
 unprojection, independent fan integrator) / planar area == 4 pi / (12 face areas) to 1e-4. non-trivial = centre within \
 0.02 of a seam, edge, vertex or face centre, or in the reflected margin; distinct by the probe's bits; bucket coverage \
 (face x sector x side) in the histogram. A second section lays tiny probes (1e-7..1e-5) directly against the seams and \
-face edges (gap 1e-13..1e-8, one probe edge parallel to the seam), from either side.";
+face edges (gap 1e-13..1e-8, one probe edge parallel to the seam), from either side. A third section locates, by bisection on the verif hook's branch signature, the radii at which the inverse map changes numerical branch and lays probes of size 1e-8..5e-8 across them.";
 
 pub fn area_constant() -> f64 {
     let face_area = 2.5 * R_VERTEX * R_VERTEX * (72f64).to_radians().sin();
@@ -288,6 +288,129 @@ fn check_seam_probe(p: &SeamProbe, st: &mut Stats) -> Result<(), String> {
     Ok(())
 }
 
+/// Probes laid across the *switch-over points* of the plane-to-sphere map: the radii at which `inverse`
+/// changes numerical branch (series vs acos in `safe_acos`, early corner returns), read through the `verif` hook
+/// and located by bisection along a ray from the face centre. Two branches that do not meet exactly leave a step
+/// in the map that only regions straddling the switch-over can see, and ordinary sampling never lands there; the
+/// probes are 1e-8..5e-8 wide (below that the rounding noise of the map itself, ~1e-15 rad, eats into the 1e-4
+/// tolerance: measured 3.8e-5 at 1e-9, 1e-5 at 1e-8), so a step of a few 1e-12 rad or more shows as an area error above 1e-4.
+#[derive(Debug, Clone)]
+pub struct BranchProbe {
+    pub face: u8,
+    pub gamma: f64,
+    pub log_r1: f64,
+    pub log_r2: f64,
+    pub log_h: f64,
+    pub rot: f64,
+    pub shape: u8,
+}
+
+fn branch_probe_json(p: &BranchProbe) -> Value {
+    json!({"face": p.face, "gamma": p.gamma, "log_r1": p.log_r1, "log_r2": p.log_r2, "log_h": p.log_h, "rot": p.rot, "shape": p.shape})
+}
+fn branch_probe_from_json(v: &Value) -> Option<BranchProbe> {
+    Some(BranchProbe {
+        face: v["face"].as_u64()? as u8,
+        gamma: v["gamma"].as_f64()?,
+        log_r1: v["log_r1"].as_f64()?,
+        log_r2: v["log_r2"].as_f64()?,
+        log_h: v["log_h"].as_f64()?,
+        rot: v["rot"].as_f64()?,
+        shape: v["shape"].as_u64()? as u8,
+    })
+}
+
+fn inverse_signature(q: P2, face: u8) -> Result<u32, String> {
+    api::inverse(q, face).map_err(|e| format!("inverse failed: {}", e))?;
+    Ok(a5::projections::polyhedral::verif_last_inverse_branches())
+}
+
+fn check_branch_probe(p: &BranchProbe, st: &mut Stats) -> Result<(), String> {
+    let step36 = std::f64::consts::PI / 5.0;
+    // keep the ray at least 0.05 rad away from the ten seams
+    let k = (p.gamma / step36).floor();
+    let within = (p.gamma / step36 - k).clamp(0.0, 1.0);
+    let g = (k + 0.08 + 0.84 * within) * step36;
+    let ray_off = ((g / step36) - (g / step36).round()).abs() * step36;
+    let dir = [g.cos(), g.sin()];
+    // stay inside the face: x' = rho cos(angle to the nearest edge normal) < R_EDGE - 0.01
+    let step72 = 2.0 * step36;
+    let rel = g - (g / step72).round() * step72;
+    let rho_max = (R_EDGE - 0.01) / rel.cos();
+    let (mut lo, mut hi) = (rho_max * 10f64.powf(p.log_r1.min(p.log_r2)), rho_max * 10f64.powf(p.log_r1.max(p.log_r2)));
+    let at = |r: f64| [r * dir[0], r * dir[1]];
+    let (s_lo, s_hi) = (inverse_signature(at(lo), p.face)?, inverse_signature(at(hi), p.face)?);
+    if s_lo == s_hi {
+        st.hit("branch:no-switch-over-between-the-two-radii");
+        return Ok(());
+    }
+    for _ in 0..200 {
+        let mid = 0.5 * (lo + hi);
+        if !(mid > lo && mid < hi) {
+            break;
+        }
+        if inverse_signature(at(mid), p.face)? == s_lo {
+            lo = mid;
+        } else {
+            hi = mid;
+        }
+    }
+    let rb = hi;
+    let centre = at(rb);
+    let d_ray = rb * ray_off.sin();
+    let h = 10f64.powf(p.log_h).min(0.2 * d_ray).min(0.2 * rb);
+    if !(h >= 1e-8) {
+        st.hit("branch:switch-over-too-close-to-the-centre-for-a-probe");
+        return Ok(());
+    }
+    let angles: [f64; 3] = match p.shape % 3 {
+        0 => [0.0, 2.0943951023931953, 4.1887902047863905],
+        1 => [0.0, 1.5707963267948966, 3.141592653589793],
+        _ => [0.0, 0.6, 3.5],
+    };
+    // translate-first: the triangle is built relative to the centre, so its planar area is exact to rounding
+    let rel_tri: Vec<P2> = angles.iter().map(|a| [h * (a + p.rot).cos(), h * (a + p.rot).sin()]).collect();
+    let planar = (poly_area2(&rel_tri) / 2.0).abs();
+    if !(planar > 0.0) {
+        return Ok(());
+    }
+    let m = 32;
+    let mut ring: Vec<V3> = Vec::with_capacity(3 * m);
+    let mut sigs = std::collections::BTreeSet::new();
+    for i in 0..3 {
+        let a = rel_tri[i];
+        let b = rel_tri[(i + 1) % 3];
+        for j in 0..m {
+            let t = j as f64 / m as f64;
+            let q = [centre[0] + (a[0] + t * (b[0] - a[0])), centre[1] + (a[1] + t * (b[1] - a[1]))];
+            ring.push(api::inverse(q, p.face).map_err(|e| format!("inverse failed: {}", e))?);
+            sigs.insert(a5::projections::polyhedral::verif_last_inverse_branches());
+        }
+    }
+    let sph = ring_area(&ring).abs();
+    let ratio = sph / planar;
+    let kc = area_constant();
+    let rel_err = (ratio / kc - 1.0).abs();
+    st.fmax("branch:area-ratio-relative-error", rel_err);
+    if !(rel_err <= 1e-4) {
+        return Err(format!(
+            "area ratio {:.9} instead of {:.9} (rel. error {:.3e} > 1e-4) for a probe of size {:.3e} laid across a switch-over of the inverse map's numerical branches (signature {:#b} below radius {:e}, {:#b} above) on face {} at azimuth {:.6} rad",
+            ratio, kc, rel_err, h, s_lo, rb, s_hi, p.face, g
+        ));
+    }
+    if sigs.len() >= 2 {
+        st.nontrivial(&(p.face, rb.to_bits(), g.to_bits(), h.to_bits(), p.shape));
+        st.hit("branch:probe-straddles-a-switch-over");
+    } else {
+        st.hit("branch:probe-did-not-straddle(one signature on its outline)");
+    }
+    st.hit(&format!("branch:switch-over:{:#b}->{:#b}", s_lo, s_hi));
+    st.hit(&format!("branch:radius:1e{:+03}", rb.log10().floor() as i32));
+    st.hit(&format!("branch:probe-size:1e{:+03}", h.log10().floor() as i32));
+    st.sample(sigs.len() >= 2, || json!({"face": p.face, "azimuth": g, "switch_over_radius": rb, "signatures": [s_lo, s_hi], "probe_size": h, "ratio": ratio, "expected": kc}));
+    Ok(())
+}
+
 pub fn run(tier: Tier, seed: u64) -> Report {
     let mut rep = Report::new("C16", tier, seed, RULE);
     rep.assume("planar positions of real cells come from get_pentagon (pinned independently by C17); the image region's edges are sampled 32 times each");
@@ -328,7 +451,22 @@ pub fn run(tier: Tier, seed: u64) -> Report {
         check_seam_probe,
         seam_probe_json,
     );
-    rep.absorb("seam-probes", r);
+    if !rep.absorb("seam-probes", r) {
+        return rep;
+    }
+    let r = run_pbt(
+        "branch-boundaries",
+        seed,
+        tier.pick(4_000, 100_000),
+        || {
+            (0u8..12, 0.0f64..std::f64::consts::TAU, -7.0f64..0.0, -7.0f64..0.0, -8.0f64..-7.3, 0.0f64..std::f64::consts::TAU, 0u8..3)
+                .prop_map(|(face, gamma, log_r1, log_r2, log_h, rot, shape)| BranchProbe { face, gamma, log_r1, log_r2, log_h, rot, shape })
+                .boxed()
+        },
+        check_branch_probe,
+        branch_probe_json,
+    );
+    rep.absorb("branch-boundaries", r);
     let buckets = rep.stats.hist.keys().filter(|k| k.starts_with("bucket:")).count();
     rep.extra.insert("buckets_hit_of_240".into(), json!(buckets));
     rep
@@ -339,6 +477,7 @@ pub fn replay(section: &str, case: &Value) -> Option<Result<(), String>> {
     Some(guarded(|| match section {
         "probes" => check_case(&case_from_json(case).ok_or("bad case")?, &mut st),
         "seam-probes" => check_seam_probe(&seam_probe_from_json(case).ok_or("bad case")?, &mut st),
+        "branch-boundaries" => check_branch_probe(&branch_probe_from_json(case).ok_or("bad case")?, &mut st),
         _ => Err(format!("unknown section {}", section)),
     }))
 }
